@@ -38,7 +38,9 @@ def main():
             "level_note": getattr(mod, "LEVEL_NOTE", "Trusted: Lean kernel (axioms propext, Classical.choice, Quot.sound only), the Spec "
                                   "definitions as a reading of the prose property, harness/extract.py + describe.py + generators; the theorems are "
                                   "about the model, the tie to the code is checked on generated inputs, not proved."),
-            "technique": getattr(mod, "TECHNIQUE", "Lean 4 proof over an executable model + generated-table agreement (decide) + model/implementation differential" + (" (renderings, and call by call the builder methods: harness/trace.py)" if getattr(mod, "TRACE_BUILDER", False) else "")),
+            "technique": getattr(mod, "TECHNIQUE", "Lean 4 proof over an executable model + generated-table agreement (decide) + model/implementation differential" + (" (renderings, and call by call the builder methods: harness/trace.py)" if getattr(mod, "TRACE_BUILDER", False) else "") +
+                         ("; frame / locality theorems of the builder model tied to the source's write and read sets (Agree/BuilderWrites, Agree/DDLWrites)"
+                          if any("writes_agree" in a for a in getattr(mod, "AGREE", [])) else "")),
         })
     manifest = {
         "version": 1,
